@@ -44,6 +44,7 @@ enum CallKind {
     Peers(Strm<Vec<SocketAddrV4>>),
     SPeers(Strm<Vec<SignedAnnounce>>),
     Muts(Strm<MutableItem>),
+    Recent(Fut<Option<MutableItem>>),
 }
 
 pub struct Call {
@@ -280,6 +281,15 @@ impl NodeStream {
                     Some(CallKind::Nodes(f)) => {
                         if let Poll::Ready(r) = f.as_mut().poll(&mut cx) {
                             events.push(format!("c{no}:nodes:{}", nodes_s(&r)));
+                            finished = true;
+                        }
+                    }
+                    Some(CallKind::Recent(f)) => {
+                        if let Poll::Ready(r) = f.as_mut().poll(&mut cx) {
+                            events.push(match r {
+                                Some(i) => format!("c{no}:recent:k={} seq={} v={} sig={} salt={} target={}", hex(i.key()), i.seq(), hexz(i.value()), hex(i.signature()), i.salt().map(hexz).unwrap_or("none".into()), hex(i.target().as_bytes())),
+                                None => format!("c{no}:recent:none"),
+                            });
                             finished = true;
                         }
                     }
@@ -955,6 +965,13 @@ impl Stream for NodeStream {
                         call.expect_key = Some(k);
                         call.expect_salt = salt.clone();
                         CallKind::Muts(Box::pin(d.get_mutable(&k, salt.as_deref(), seq)))
+                    }
+                    "get_mut_recent" => {
+                        let k: [u8; 32] = unhex(kv(toks, "k").expect("k")).try_into().expect("k32");
+                        let salt = kv(toks, "salt").filter(|s| *s != "none").map(unhex);
+                        call.expect_key = Some(k);
+                        call.expect_salt = salt.clone();
+                        CallKind::Recent(Box::pin(async move { d.get_mutable_most_recent(&k, salt.as_deref()).await }))
                     }
                     "get_peers" => {
                         let ih = id_of(kv(toks, "ih").expect("ih"));
@@ -2496,6 +2513,54 @@ pub fn run(out: &mut Out, seed: u64, thorough: bool, replay: Option<&str>) {
         d.finish();
         d.out.mark_distinct(fnv(format!("K3{round}").as_bytes()));
         d.out.count("chain-of-narrow-views");
+        d.s.shutdown();
+    }
+    // ---- K4 (C16): the newest version of a mutable item is held by the node at the end of a chain of narrow
+    //          views — it arrives in the answer that completes the lookup — or by the only node there is;
+    //          get_mutable_most_recent returns it
+    for round in 0..(if thorough { 6 } else { 3 }) {
+        t0 += 10_000_000_000_000;
+        let old = MutableItem::new(&key_from_seed(9), b"version one", 1, None);
+        let newest = MutableItem::new(&key_from_seed(9), b"version two", 2, None);
+        let target = *old.target();
+        let n = if round % 3 == 2 { 1 } else { 4 };
+        let mut net = VNet::new(&mut rng, n, true);
+        for (j, p) in net.peers.iter_mut().enumerate() {
+            let mut idb = *target.as_bytes();
+            match j {
+                0 => idb[0] ^= 0x80,
+                1 => idb[1] ^= 0x80,
+                2 => idb[5] ^= 0x80,
+                _ => idb[19] ^= 0x01,
+            }
+            p.id = Id::from_bytes(idb).expect("id");
+        }
+        let chain: [Vec<usize>; 4] = [vec![1], vec![2], vec![3], vec![]];
+        for (j, p) in net.peers.iter_mut().enumerate() {
+            p.chain_for = Some((target, if n == 1 { vec![] } else { chain[j].clone() }));
+        }
+        let last = n - 1;
+        if n > 1 {
+            net.peers[1].muts.insert(target, (old.value().to_vec(), *old.key(), old.seq(), *old.signature()));
+            if round % 3 == 1 {
+                net.peers[2].muts.insert(target, (old.value().to_vec(), *old.key(), old.seq(), *old.signature()));
+            }
+        }
+        net.peers[last].muts.insert(target, (newest.value().to_vec(), *newest.key(), newest.seq(), *newest.signature()));
+        let boot = vec![net.peers[0].addr];
+        let mut d = Driver::new(out, rng.next(), net);
+        d.begin("c", &boot, None, rng.next() % 1_000_000 + 1, t0);
+        d.run_for(2 * SEC, 10 * MS);
+        let c = d.api(format!("get_mut_recent k={} salt=none", hex(key_from_seed(9).verifying_key().as_bytes())));
+        d.settle(20 * SEC, 10 * MS);
+        let got = d.results(c);
+        let delivered_newest = d.delivered.iter().any(|(_, _, mt)| matches!(mt, MessageType::Response(ResponseSpecific::GetMutable(a)) if a.seq == 2));
+        if delivered_newest && !got.iter().any(|r| r.contains(":recent:") && r.contains("seq=2 ")) {
+            d.out.violation("C16", "newest-item-missed", format!("an authentic item with seq 2 reached the node in an answer to the lookup, but get_mutable_most_recent returned {:?}", got));
+        }
+        d.finish();
+        d.out.mark_distinct(fnv(format!("K4{round}").as_bytes()));
+        d.out.count("newest-at-the-end-of-the-chain");
         d.s.shutdown();
     }
     // ---- F2: adaptive node confirmed at address A; then its peers report another address B that is
